@@ -25,6 +25,18 @@ PU = "cdd.sqlalchemy.utils.parse_utils."
 
 def run(ctx):
     """entry"""
+    a = None
+    c2t = None
+    e = None
+    ehp = None
+    f = None
+    k = None
+    n = None
+    ok = None
+    p2c = None
+    s = None
+    t = None
+    v = None
     index = ctx.index
     env = ModuleEnv(index)
     graph = RefGraph(index)
@@ -36,274 +48,294 @@ def run(ctx):
         "primary-key stores; return-path funnel of the three parsers."
     )
     ctx.assumptions += ["NOT decided: round-trip equality for all column lists (value level)"]
-    # ------------------------------------------------------------ tables
-    try:
-        t2c = env.value(EU + "typ2column_type")
-        c2t = env.value(PU + "column_type2typ")
-    except Unknown as x:
-        ctx.need(False, "cannot fold the column type tables: {}".format(x))
-    # the cross-module import-time update (already shown idempotent by C10.crossmod) is applied too
-    foreign = index.module("cdd.compound.openapi.utils.emit_utils")
-    for s in foreign.tree.body:
-        if isinstance(s, ast.Expr) and isinstance(s.value, ast.Call) and norm(s.value.func).endswith("typ2column_type.update"):
-            try:
-                t2c = dict(t2c)
-                for a in s.value.args:
-                    t2c.update(env.in_module(foreign, a))
-            except Unknown as x:
-                ctx.need(False, "cannot fold the foreign table update: {}".format(x))
-    ctx.count("table_entries_folded", len(t2c) + len(c2t))
-    emod = index.module("cdd.sqlalchemy.utils.parse_utils")
-    for t in DOMAIN:
-        col = t2c.get(t)
-        back = c2t.get(col) if isinstance(col, str) else None
-        ok = back == t
-        ctx.ob(
-            "C05.tables",
-            emod,
-            "{} -> {} -> {}".format(t, col, back),
-            ok,
-            ""
-            if ok
-            else "a column of type {!r} is emitted as {} and parsed back as {!r}: the type does not round-trip".format(t, col, back),
-            line=1,
-        )
-    # ------------------------------------------------------------- vocab
-    hck = index.func(EU + "_handle_column_keywords")
-    p2c = index.func(EU + "param_to_sqlalchemy_column_calls")
-    ehp = index.func(EU + "ensure_has_primary_key")
-    cc2p = index.func(PU + "column_call_to_param")
-    written = set()
-    for f in index.nontest_funcs():
-        if f.mod.name == "cdd.sqlalchemy.utils.emit_utils" and (f is hck or f is p2c or f.qual.startswith(p2c.qual) or graph.path(p2c.qual, f.qual)):
-            written |= keywords_written(f)
-    for n in iter_own(hck.node):
-        if isinstance(n, ast.Assign) and isinstance(n.targets[0], ast.Attribute) and n.targets[0].attr == "arg" and isinstance(n.value, ast.Constant):
-            written.add(n.value.value)
-    # constraint keys synthesised by the emitters themselves
-    for n in iter_own(ehp.node):
-        if isinstance(n, ast.Dict):
-            for k, v in zip(n.keys, n.values):
-                if isinstance(k, ast.Constant) and k.value == "constraints" and isinstance(v, ast.Dict):
-                    written.update(x.value for x in v.keys if isinstance(x, ast.Constant))
-    handled = set()
-    for n in iter_own(cc2p.node):
-        if isinstance(n, ast.Compare) and isinstance(n.ops[0], ast.In) and isinstance(n.left, ast.Constant) and norm(n.comparators[0]) == "_param":
-            handled.add(n.left.value)
-        if isinstance(n, ast.Call) and isinstance(n.func, ast.Attribute) and n.func.attr in ("pop", "get") and norm(n.func.value) == "_param" and n.args and isinstance(n.args[0], ast.Constant):
-            handled.add(n.args[0].value)
-        if isinstance(n, ast.Tuple):
-            for e in n.elts:
-                if isinstance(e, ast.Tuple) and len(e.elts) == 2 and isinstance(e.elts[1], ast.Constant):
-                    handled.add(e.elts[1].value)
-    # keys that ARE the interface vocabulary need no folding
-    passthrough = {"doc", "default", "typ"}
-    ctx.count("column_keywords_written", len(written))
-    ctx.floor("column keywords written by the emitters", len(written), 5)
-    for k in sorted(written):
-        if k in passthrough:
-            ctx.ob("C05.vocab", cc2p, "Column({}=...) is interface vocabulary".format(k), True, line=cc2p.node.lineno)
-            continue
-        # folded = read AND removed (popped / deleted) so that it does not stay as a stray key
-        loop_longnames = set()
-        for n in iter_own(cc2p.node):
-            if isinstance(n, ast.For) and any(isinstance(d, ast.Delete) and any(norm(t) == "_param[longname]" for t in d.targets) for b2 in n.body for d in ast.walk(b2)):
-                for e in ast.walk(n.iter):
-                    if isinstance(e, ast.Tuple) and len(e.elts) == 2 and isinstance(e.elts[1], ast.Constant):
-                        loop_longnames.add(e.elts[1].value)
-        removed = k in loop_longnames or any(
-            (isinstance(n, ast.Call) and isinstance(n.func, ast.Attribute) and n.func.attr == "pop" and norm(n.func.value) == "_param" and n.args and isinstance(n.args[0], ast.Constant) and n.args[0].value == k)
-            or (isinstance(n, ast.Delete) and any(norm(t) == "_param[{!r}]".format(k) for t in n.targets))
-            for n in iter_own(cc2p.node)
-        )
-        ok = k in handled and removed
-        ctx.ob(
-            "C05.vocab",
-            cc2p,
-            "Column({}=...) written by the emitter".format(k),
-            ok,
-            ""
-            if ok
-            else (
-                "the emitter can write Column({}=...) but column_call_to_param never looks at it".format(k)
-                if k not in handled
-                else "column_call_to_param reads {!r} but leaves it behind as a stray top-level key of the parameter entry".format(k)
-            ),
-            line=cc2p.node.lineno,
-        )
-    # ---------------------------------------------------------------- pk
-    n_sites = 0
-    for f in index.nontest_funcs():
-        if f.mod.name != "cdd.sqlalchemy.emit":
-            continue
-        for n in iter_own(f.node):
-            if not (isinstance(n, ast.Call) and norm(n.func) == "map" and len(n.args) == 2):
-                continue
-            fn_arg = n.args[0]
-            mentions = any(
-                isinstance(x, (ast.Name, ast.Attribute)) and index.resolve(f.mod, x, f) == p2c.qual
-                for x in ast.walk(fn_arg)
-            )
-            if not mentions:
-                continue
-            n_sites += 1
-            it = n.args[1]
-            ok = (
-                isinstance(it, ast.Call)
-                and isinstance(it.func, ast.Attribute)
-                and it.func.attr == "items"
-                and isinstance(it.func.value, ast.Call)
-                and index.callee(f.mod, it.func.value, f) == ehp.qual
-            )
+    def _sec_tables():
+        nonlocal a, c2t, ok, s, t
+        # ------------------------------------------------------------ tables
+        try:
+            t2c = env.value(EU + "typ2column_type")
+            c2t = env.value(PU + "column_type2typ")
+        except Unknown as x:
+            ctx.need(False, "cannot fold the column type tables: {}".format(x))
+        # the cross-module import-time update (already shown idempotent by C10.crossmod) is applied too
+        foreign = index.module("cdd.compound.openapi.utils.emit_utils")
+        for s in foreign.tree.body:
+            if isinstance(s, ast.Expr) and isinstance(s.value, ast.Call) and norm(s.value.func).endswith("typ2column_type.update"):
+                try:
+                    t2c = dict(t2c)
+                    for a in s.value.args:
+                        t2c.update(env.in_module(foreign, a))
+                except Unknown as x:
+                    ctx.need(False, "cannot fold the foreign table update: {}".format(x))
+        ctx.count("table_entries_folded", len(t2c) + len(c2t))
+        emod = index.module("cdd.sqlalchemy.utils.parse_utils")
+        for t in DOMAIN:
+            col = t2c.get(t)
+            back = c2t.get(col) if isinstance(col, str) else None
+            ok = back == t
             ctx.ob(
-                "C05.pk",
-                f,
-                "columns of {} come from {}".format(f.short, short(it, 70)),
+                "C05.tables",
+                emod,
+                "{} -> {} -> {}".format(t, col, back),
                 ok,
-                "" if ok else "columns are emitted without passing through ensure_has_primary_key: an interface without "
-                "a [PK] marker yields a table with no primary key",
-                line=n.lineno,
+                ""
+                if ok
+                else "a column of type {!r} is emitted as {} and parsed back as {!r}: the type does not round-trip".format(t, col, back),
+                line=1,
             )
-    ctx.count("column_emission_sites", n_sites)
-    ctx.floor("column emission sites", n_sites, 2)
-    # every call of ensure_has_primary_key inside an emitter forwards the emitter's own force_pk_id, so
-    # that the three variants resolve the primary key identically
-    n_calls = 0
-    for f in index.nontest_funcs():
-        if f.mod.name != "cdd.sqlalchemy.emit" or "force_pk_id" not in f.params:
-            continue
-        for n in iter_own(f.node):
-            if isinstance(n, ast.Call) and index.callee(f.mod, n, f) == ehp.qual:
-                n_calls += 1
-                a = None
-                for k in n.keywords:
-                    if k.arg == "force_pk_id":
-                        a = k.value
-                if a is None and len(n.args) > 1:
-                    a = n.args[1]
-                ok = isinstance(a, ast.Name) and a.id == "force_pk_id"
+
+    ctx.section(_sec_tables)
+
+    def _sec_vocab():
+        nonlocal e, ehp, f, k, n, ok, p2c, v
+        # ------------------------------------------------------------- vocab
+        hck = index.func(EU + "_handle_column_keywords")
+        p2c = index.func(EU + "param_to_sqlalchemy_column_calls")
+        ehp = index.func(EU + "ensure_has_primary_key")
+        cc2p = index.func(PU + "column_call_to_param")
+        written = set()
+        for f in index.nontest_funcs():
+            if f.mod.name == "cdd.sqlalchemy.utils.emit_utils" and (f is hck or f is p2c or f.qual.startswith(p2c.qual) or graph.path(p2c.qual, f.qual)):
+                written |= keywords_written(f)
+        for n in iter_own(hck.node):
+            if isinstance(n, ast.Assign) and isinstance(n.targets[0], ast.Attribute) and n.targets[0].attr == "arg" and isinstance(n.value, ast.Constant):
+                written.add(n.value.value)
+        # constraint keys synthesised by the emitters themselves
+        for n in iter_own(ehp.node):
+            if isinstance(n, ast.Dict):
+                for k, v in zip(n.keys, n.values):
+                    if isinstance(k, ast.Constant) and k.value == "constraints" and isinstance(v, ast.Dict):
+                        written.update(x.value for x in v.keys if isinstance(x, ast.Constant))
+        handled = set()
+        for n in iter_own(cc2p.node):
+            if isinstance(n, ast.Compare) and isinstance(n.ops[0], ast.In) and isinstance(n.left, ast.Constant) and norm(n.comparators[0]) == "_param":
+                handled.add(n.left.value)
+            if isinstance(n, ast.Call) and isinstance(n.func, ast.Attribute) and n.func.attr in ("pop", "get") and norm(n.func.value) == "_param" and n.args and isinstance(n.args[0], ast.Constant):
+                handled.add(n.args[0].value)
+            if isinstance(n, ast.Tuple):
+                for e in n.elts:
+                    if isinstance(e, ast.Tuple) and len(e.elts) == 2 and isinstance(e.elts[1], ast.Constant):
+                        handled.add(e.elts[1].value)
+        # keys that ARE the interface vocabulary need no folding
+        passthrough = {"doc", "default", "typ"}
+        ctx.count("column_keywords_written", len(written))
+        ctx.floor("column keywords written by the emitters", len(written), 5)
+        for k in sorted(written):
+            if k in passthrough:
+                ctx.ob("C05.vocab", cc2p, "Column({}=...) is interface vocabulary".format(k), True, line=cc2p.node.lineno)
+                continue
+            # folded = read AND removed (popped / deleted) so that it does not stay as a stray key
+            loop_longnames = set()
+            for n in iter_own(cc2p.node):
+                if isinstance(n, ast.For) and any(isinstance(d, ast.Delete) and any(norm(t) == "_param[longname]" for t in d.targets) for b2 in n.body for d in ast.walk(b2)):
+                    for e in ast.walk(n.iter):
+                        if isinstance(e, ast.Tuple) and len(e.elts) == 2 and isinstance(e.elts[1], ast.Constant):
+                            loop_longnames.add(e.elts[1].value)
+            removed = k in loop_longnames or any(
+                (isinstance(n, ast.Call) and isinstance(n.func, ast.Attribute) and n.func.attr == "pop" and norm(n.func.value) == "_param" and n.args and isinstance(n.args[0], ast.Constant) and n.args[0].value == k)
+                or (isinstance(n, ast.Delete) and any(norm(t) == "_param[{!r}]".format(k) for t in n.targets))
+                for n in iter_own(cc2p.node)
+            )
+            ok = k in handled and removed
+            ctx.ob(
+                "C05.vocab",
+                cc2p,
+                "Column({}=...) written by the emitter".format(k),
+                ok,
+                ""
+                if ok
+                else (
+                    "the emitter can write Column({}=...) but column_call_to_param never looks at it".format(k)
+                    if k not in handled
+                    else "column_call_to_param reads {!r} but leaves it behind as a stray top-level key of the parameter entry".format(k)
+                ),
+                line=cc2p.node.lineno,
+            )
+
+    ctx.section(_sec_vocab)
+
+    def _sec_pk():
+        nonlocal a, c2t, f, k, n, ok, s
+        # ---------------------------------------------------------------- pk
+        n_sites = 0
+        for f in index.nontest_funcs():
+            if f.mod.name != "cdd.sqlalchemy.emit":
+                continue
+            for n in iter_own(f.node):
+                if not (isinstance(n, ast.Call) and norm(n.func) == "map" and len(n.args) == 2):
+                    continue
+                fn_arg = n.args[0]
+                mentions = any(
+                    isinstance(x, (ast.Name, ast.Attribute)) and index.resolve(f.mod, x, f) == p2c.qual
+                    for x in ast.walk(fn_arg)
+                )
+                if not mentions:
+                    continue
+                n_sites += 1
+                it = n.args[1]
+                ok = (
+                    isinstance(it, ast.Call)
+                    and isinstance(it.func, ast.Attribute)
+                    and it.func.attr == "items"
+                    and isinstance(it.func.value, ast.Call)
+                    and index.callee(f.mod, it.func.value, f) == ehp.qual
+                )
                 ctx.ob(
                     "C05.pk",
                     f,
-                    n,
+                    "columns of {} come from {}".format(f.short, short(it, 70)),
                     ok,
-                    ""
-                    if ok
-                    else "ensure_has_primary_key is called without forwarding {}'s force_pk_id: this variant infers a "
-                    "different primary key than its siblings (and a later correct call finds a PK already "
-                    "marked)".format(f.short),
+                    "" if ok else "columns are emitted without passing through ensure_has_primary_key: an interface without "
+                    "a [PK] marker yields a table with no primary key",
+                    line=n.lineno,
                 )
-    ctx.floor("ensure_has_primary_key calls in emitters", n_calls, 1)
-    # the class reader skips exactly the non-column attributes the class emitter writes
-    c2t = index.func(EU + "sqlalchemy_class_to_table")
-    emitted_dunders = set()
-    for f in index.nontest_funcs():
-        if f.mod.name == "cdd.sqlalchemy.emit":
+        ctx.count("column_emission_sites", n_sites)
+        ctx.floor("column emission sites", n_sites, 2)
+        # every call of ensure_has_primary_key inside an emitter forwards the emitter's own force_pk_id, so
+        # that the three variants resolve the primary key identically
+        n_calls = 0
+        for f in index.nontest_funcs():
+            if f.mod.name != "cdd.sqlalchemy.emit" or "force_pk_id" not in f.params:
+                continue
             for n in iter_own(f.node):
-                if isinstance(n, ast.Call) and norm(n.func).rpartition(".")[2] == "Name" and n.args and isinstance(n.args[0], ast.Constant) and isinstance(n.args[0].value, str) and n.args[0].value.startswith("__"):
-                    emitted_dunders.add(n.args[0].value)
-                if isinstance(n, ast.Constant) and isinstance(n.value, str) and n.value.startswith("__") and n.value.endswith("__") and n.value != "__init__":
-                    emitted_dunders.add(n.value)
-    n_filters = 0
-    for n in iter_own(c2t.node):
-        if not isinstance(n, ast.Lambda) or [a.arg for a in n.args.args] != ["target"]:
-            continue
-        n_filters += 1
-        body = n.body
-        consts = set()
-        disjuncts = body.values if isinstance(body, ast.BoolOp) and isinstance(body.op, ast.Or) else [body]
-        for dj in disjuncts:
-            if "target.id" not in norm(dj):
-                continue  # a structural test, not a test on the attribute's name
-            if isinstance(dj, ast.Compare) and norm(dj.left) == "target.id" and len(dj.ops) == 1 and isinstance(dj.ops[0], ast.Eq) and isinstance(dj.comparators[0], ast.Constant):
-                consts.add(dj.comparators[0].value)
-            elif isinstance(dj, ast.Compare) and norm(dj.left) == "target.id" and len(dj.ops) == 1 and isinstance(dj.ops[0], ast.In) and isinstance(dj.comparators[0], (ast.Tuple, ast.List, ast.Set)):
-                consts |= {e.value for e in dj.comparators[0].elts if isinstance(e, ast.Constant)}
-            else:
-                consts = None
-                break
-        ok = consts is not None and consts <= emitted_dunders
-        ctx.ob(
-            "C05.vocab",
-            c2t,
-            "non-column attributes skipped by the class reader: " + short(body, 60),
-            ok,
-            ""
-            if ok
-            else (
-                "the class reader skips an open-ended family of attribute names ({}) while the class emitter writes every "
-                "column as `name = Column(...)`: columns with such names vanish when the class form is parsed "
-                "back".format(short(body, 50))
-                if consts is None
-                else "the class reader skips {} which the emitter never writes as a non-column".format(sorted(consts - emitted_dunders))
-            ),
-            line=n.lineno,
-        )
-    ctx.need(n_filters >= 1, "the non-column filter vanished from sqlalchemy_class_to_table")
-    facts_at = {}
-
-    def on_stmt(s, facts):
-        facts_at[id(s)] = facts
-
-    GuardWalker(on_stmt=on_stmt).walk_function(ehp.node)
-    stores = [
-        n
-        for n in iter_own(ehp.node)
-        if isinstance(n, ast.Assign)
-        and isinstance(n.targets[0], ast.Subscript)
-        and "[PK]" in norm(n.value)
-    ]
-    ctx.need(len(stores) >= 3, "expected three primary-key stores in ensure_has_primary_key, found {}".format(len(stores)))
-    absence = None
-    for n in iter_own(ehp.node):
-        if isinstance(n, ast.If) and "[PK]" in norm(n.test) and isinstance(n.test, ast.UnaryOp):
-            absence = n
-    ctx.need(absence is not None, "the `not any(... startswith('[PK]') ...)` absence test vanished")
-    atext = norm(absence.test.operand)
-    arms = []
-    for s in stores:
-        facts = facts_at.get(id(s)) or {}
-        ok = facts.get(atext) is False
-        ctx.ob(
-            "C05.pk",
-            ehp,
-            s,
-            ok,
-            "" if ok else "a primary-key marker is introduced without first checking that none exists: two primary keys",
-        )
-        # which arm of the if/elif/else chain
-        p = ehp.mod.parents.get(s)
-        arms.append(id(p) if isinstance(p, ast.If) else None)
-        chain = []
-        child = s
-        while p is not None and p is not absence:
-            if isinstance(p, ast.If):
-                chain.append((id(p), "body" if child in p.body else "orelse"))
-            child, p = p, ehp.mod.parents.get(p)
-        arms[-1] = tuple(chain)
-    exclusive = True
-    for i in range(len(arms)):
-        for j in range(i + 1, len(arms)):
-            a, b = dict(arms[i]), dict(arms[j])
-            if not any(k in b and b[k] != v for k, v in a.items()):
-                exclusive = False
-    ctx.ob("C05.pk", ehp, "the primary-key stores are in mutually exclusive arms", exclusive, "" if exclusive else "two primary-key stores can both execute", line=absence.lineno)
-    # ------------------------------------------------------------ funnel
-    hyb = index.func("cdd.sqlalchemy.parse.sqlalchemy_hybrid")
-    cls = index.func("cdd.sqlalchemy.parse.sqlalchemy")
-    tbl = index.func("cdd.sqlalchemy.parse.sqlalchemy_table")
-    for f, target, via in ((hyb, cls, None), (cls, tbl, EU + "sqlalchemy_class_to_table")):
-        rets = [n for n in iter_own(f.node) if isinstance(n, ast.Return)]
-        ctx.need(rets, "no return in {}".format(f.qual))
-        for r in rets:
-            ok = isinstance(r.value, ast.Call) and index.callee(f.mod, r.value, f) == target.qual
-            if ok and via is not None:
-                a0 = r.value.args[0] if r.value.args else None
-                ok = isinstance(a0, ast.Call) and index.callee(f.mod, a0, f) == via
+                if isinstance(n, ast.Call) and index.callee(f.mod, n, f) == ehp.qual:
+                    n_calls += 1
+                    a = None
+                    for k in n.keywords:
+                        if k.arg == "force_pk_id":
+                            a = k.value
+                    if a is None and len(n.args) > 1:
+                        a = n.args[1]
+                    ok = isinstance(a, ast.Name) and a.id == "force_pk_id"
+                    ctx.ob(
+                        "C05.pk",
+                        f,
+                        n,
+                        ok,
+                        ""
+                        if ok
+                        else "ensure_has_primary_key is called without forwarding {}'s force_pk_id: this variant infers a "
+                        "different primary key than its siblings (and a later correct call finds a PK already "
+                        "marked)".format(f.short),
+                    )
+        ctx.floor("ensure_has_primary_key calls in emitters", n_calls, 1)
+        # the class reader skips exactly the non-column attributes the class emitter writes
+        c2t = index.func(EU + "sqlalchemy_class_to_table")
+        emitted_dunders = set()
+        for f in index.nontest_funcs():
+            if f.mod.name == "cdd.sqlalchemy.emit":
+                for n in iter_own(f.node):
+                    if isinstance(n, ast.Call) and norm(n.func).rpartition(".")[2] == "Name" and n.args and isinstance(n.args[0], ast.Constant) and isinstance(n.args[0].value, str) and n.args[0].value.startswith("__"):
+                        emitted_dunders.add(n.args[0].value)
+                    if isinstance(n, ast.Constant) and isinstance(n.value, str) and n.value.startswith("__") and n.value.endswith("__") and n.value != "__init__":
+                        emitted_dunders.add(n.value)
+        n_filters = 0
+        for n in iter_own(c2t.node):
+            if not isinstance(n, ast.Lambda) or [a.arg for a in n.args.args] != ["target"]:
+                continue
+            n_filters += 1
+            body = n.body
+            consts = set()
+            disjuncts = body.values if isinstance(body, ast.BoolOp) and isinstance(body.op, ast.Or) else [body]
+            for dj in disjuncts:
+                if "target.id" not in norm(dj):
+                    continue  # a structural test, not a test on the attribute's name
+                if isinstance(dj, ast.Compare) and norm(dj.left) == "target.id" and len(dj.ops) == 1 and isinstance(dj.ops[0], ast.Eq) and isinstance(dj.comparators[0], ast.Constant):
+                    consts.add(dj.comparators[0].value)
+                elif isinstance(dj, ast.Compare) and norm(dj.left) == "target.id" and len(dj.ops) == 1 and isinstance(dj.ops[0], ast.In) and isinstance(dj.comparators[0], (ast.Tuple, ast.List, ast.Set)):
+                    consts |= {e.value for e in dj.comparators[0].elts if isinstance(e, ast.Constant)}
+                else:
+                    consts = None
+                    break
+            ok = consts is not None and consts <= emitted_dunders
             ctx.ob(
-                "C05.funnel",
-                f,
-                r,
-                bool(ok),
-                "" if ok else "{} no longer funnels into {}: the variants can parse the same columns differently".format(f.short, target.short),
+                "C05.vocab",
+                c2t,
+                "non-column attributes skipped by the class reader: " + short(body, 60),
+                ok,
+                ""
+                if ok
+                else (
+                    "the class reader skips an open-ended family of attribute names ({}) while the class emitter writes every "
+                    "column as `name = Column(...)`: columns with such names vanish when the class form is parsed "
+                    "back".format(short(body, 50))
+                    if consts is None
+                    else "the class reader skips {} which the emitter never writes as a non-column".format(sorted(consts - emitted_dunders))
+                ),
+                line=n.lineno,
             )
+        ctx.need(n_filters >= 1, "the non-column filter vanished from sqlalchemy_class_to_table")
+        facts_at = {}
+
+        def on_stmt(s, facts):
+            facts_at[id(s)] = facts
+
+        GuardWalker(on_stmt=on_stmt).walk_function(ehp.node)
+        stores = [
+            n
+            for n in iter_own(ehp.node)
+            if isinstance(n, ast.Assign)
+            and isinstance(n.targets[0], ast.Subscript)
+            and "[PK]" in norm(n.value)
+        ]
+        ctx.need(len(stores) >= 3, "expected three primary-key stores in ensure_has_primary_key, found {}".format(len(stores)))
+        absence = None
+        for n in iter_own(ehp.node):
+            if isinstance(n, ast.If) and "[PK]" in norm(n.test) and isinstance(n.test, ast.UnaryOp):
+                absence = n
+        ctx.need(absence is not None, "the `not any(... startswith('[PK]') ...)` absence test vanished")
+        atext = norm(absence.test.operand)
+        arms = []
+        for s in stores:
+            facts = facts_at.get(id(s)) or {}
+            ok = facts.get(atext) is False
+            ctx.ob(
+                "C05.pk",
+                ehp,
+                s,
+                ok,
+                "" if ok else "a primary-key marker is introduced without first checking that none exists: two primary keys",
+            )
+            # which arm of the if/elif/else chain
+            p = ehp.mod.parents.get(s)
+            arms.append(id(p) if isinstance(p, ast.If) else None)
+            chain = []
+            child = s
+            while p is not None and p is not absence:
+                if isinstance(p, ast.If):
+                    chain.append((id(p), "body" if child in p.body else "orelse"))
+                child, p = p, ehp.mod.parents.get(p)
+            arms[-1] = tuple(chain)
+        exclusive = True
+        for i in range(len(arms)):
+            for j in range(i + 1, len(arms)):
+                a, b = dict(arms[i]), dict(arms[j])
+                if not any(k in b and b[k] != v for k, v in a.items()):
+                    exclusive = False
+        ctx.ob("C05.pk", ehp, "the primary-key stores are in mutually exclusive arms", exclusive, "" if exclusive else "two primary-key stores can both execute", line=absence.lineno)
+
+    ctx.section(_sec_pk)
+
+    def _sec_funnel():
+        nonlocal f, ok
+        # ------------------------------------------------------------ funnel
+        hyb = index.func("cdd.sqlalchemy.parse.sqlalchemy_hybrid")
+        cls = index.func("cdd.sqlalchemy.parse.sqlalchemy")
+        tbl = index.func("cdd.sqlalchemy.parse.sqlalchemy_table")
+        for f, target, via in ((hyb, cls, None), (cls, tbl, EU + "sqlalchemy_class_to_table")):
+            rets = [n for n in iter_own(f.node) if isinstance(n, ast.Return)]
+            ctx.need(rets, "no return in {}".format(f.qual))
+            for r in rets:
+                ok = isinstance(r.value, ast.Call) and index.callee(f.mod, r.value, f) == target.qual
+                if ok and via is not None:
+                    a0 = r.value.args[0] if r.value.args else None
+                    ok = isinstance(a0, ast.Call) and index.callee(f.mod, a0, f) == via
+                ctx.ob(
+                    "C05.funnel",
+                    f,
+                    r,
+                    bool(ok),
+                    "" if ok else "{} no longer funnels into {}: the variants can parse the same columns differently".format(f.short, target.short),
+                )
+
+    ctx.section(_sec_funnel)
+
